@@ -197,6 +197,12 @@ func checkC11(w *World, r *Report) {
 							hasMethod = true
 						}
 					}
+					// allow != "" where allow is the result of a helper that builds the list
+					if sv, isS := constString(bo.Y); isS && sv == "" && ((bo.Op == token.NEQ && ft.Val) || (bo.Op == token.EQL && !ft.Val)) {
+						if _, isCall := bo.X.(*ssa.Call); isCall {
+							hasLen = true
+						}
+					}
 					// sb.Len() > 0
 					if cl, ok := bo.X.(*ssa.Call); ok && bo.Op == token.GTR && ft.Val {
 						if obj := calleeObj(cl); obj != nil && obj.Name() == "Len" {
@@ -294,7 +300,8 @@ func checkScopePairing(w *World, r *Report, d *dispatchInfo, id string) {
 func checkAllowLoops(w *World, r *Report, d *dispatchInfo) {
 	ru := r.Rule("C11.4", "Allow loops: each lazy lookup uses the loop root's key, the request host and the very path value of the main lookup; a method is appended only when the lookup matched and (no trailing-slash action is needed, or the route ignores trailing slashes and the method is not CONNECT — the conditions under which ServeHTTP would serve it); the 405 loop skips exactly the request method; the Allow header is set before the special handler runs", 3)
 	if len(d.lazyLooks) != 2 {
-		ru.Fail("lazy lookups in ServeHTTP", w.Pos(d.fn.Pos()), "one lazy lookup per Allow loop (OPTIONS and 405)", fmt.Sprintf("%d found", len(d.lazyLooks)))
+		// the loops may have been moved out of ServeHTTP; this rule only knows them there
+		r.Unrecognised("C11.4: %d lazy lookups found in ServeHTTP (one per Allow loop expected: OPTIONS and 405)", len(d.lazyLooks))
 	}
 	route := w.FoxType("Route")
 	ignoreF := w.Field(route, "ignoreTrailingSlash")
